@@ -452,6 +452,21 @@ impl Default for RunOpts {
     }
 }
 
+/// an unrelated graph with as many edges as `like`: parallel massive edges between
+/// two vertices no workload graph uses together, weights large enough to be accepted
+fn flusher_graph(like: &GraphSpec) -> GraphSpec {
+    let ne = like.edges.len().max(2);
+    GraphSpec {
+        d: like.d,
+        edges: (0..ne)
+            .map(|i| crate::sampler::EdgeSpec { v: (250, 251), massive: true, w: (like.d as f64 + 0.01 * i as f64).to_bits() })
+            .collect(),
+        externals: vec![250, 251],
+        signature: vec![],
+        name: "flusher".into(),
+    }
+}
+
 fn fresh_env(spec: &GraphSpec, s: Arc<dyn Sampler>) -> Env {
     Env {
         spec: spec.clone(),
@@ -488,6 +503,12 @@ pub fn run_scenario(sc: &Scenario, opts: &RunOpts) -> RunReport {
     }
     let mut refs_v: Vec<Arc<dyn Sampler>> = Vec::new();
     for sp in &specs {
+        // "built in isolation": a bounded cache inside the library that an earlier
+        // build may have filled is evicted by building an unrelated graph of the
+        // same size first (the run itself builds without this)
+        if specs.len() > 1 {
+            let _ = sampler::build(&flusher_graph(sp));
+        }
         match sampler::build(sp) {
             Built::Ok(s) => refs_v.push(Arc::from(s)),
             Built::Err(e) => {
